@@ -107,6 +107,14 @@ dr_calc_edges(dr_basic_stat * bs, dr_pi_dag * G) {
 	  EDGE_COUNTS(k, w, w) += t->info.logical_edge_counts[k];
 	}
       }
+      if (t->info.kind == dr_dag_node_kind_section) {
+	/* a contracted section under a materialised parent: the end edges of the
+	   tasks it created lead to its (materialised) successor; they are neither
+	   in its own summary nor among the materialised edges */
+	int w = t->info.worker;
+	if (w == -1) w = nw;
+	EDGE_COUNTS(dr_dag_edge_kind_end, w, w) += t->info.n_child_create_tasks;
+      }
     }    
   }
   for (i = 0; i < m; i++) {
